@@ -69,6 +69,11 @@ def vh(args, timeout=600, env=None):
 
 
 # ---------------------------------------------------------------- TLA value parser
+_RE_NAME = re.compile(r"[A-Za-z_][A-Za-z0-9_]*")
+_RE_INT = re.compile(r"-?\d+")
+_RE_BOOL = re.compile(r"TRUE|FALSE")
+
+
 class _P:
     def __init__(self, s):
         self.s = s
@@ -114,10 +119,10 @@ class _P:
             rec = {}
             while not self.peek("]"):
                 self.ws()
-                m = re.match(r"[A-Za-z_][A-Za-z0-9_]*", s[self.i:])
+                m = _RE_NAME.match(s, self.i)
                 if not m:
                     raise ValueError("field name at %d" % self.i)
-                self.i += m.end()
+                self.i = m.end()
                 self.eat("|->")
                 rec[m.group(0)] = self.val()
                 if self.peek(","):
@@ -134,17 +139,17 @@ class _P:
                 j += 1
             self.i = j + 1
             return "".join(buf)
-        m = re.match(r"-?\d+", s[self.i:])
+        m = _RE_INT.match(s, self.i)
         if m:
-            self.i += m.end()
+            self.i = m.end()
             return int(m.group(0))
-        m = re.match(r"TRUE|FALSE", s[self.i:])
+        m = _RE_BOOL.match(s, self.i)
         if m:
-            self.i += m.end()
+            self.i = m.end()
             return m.group(0) == "TRUE"
-        m = re.match(r"[A-Za-z_][A-Za-z0-9_]*", s[self.i:])
+        m = _RE_NAME.match(s, self.i)
         if m:
-            self.i += m.end()
+            self.i = m.end()
             return m.group(0)
         raise ValueError("cannot parse at %d: %r" % (self.i, s[self.i:self.i + 40]))
 
